@@ -894,6 +894,23 @@ class Discharger:
                                 out.append(L.ge(L.lin_var(v), lo_))
                             if hi_ is not None:
                                 out.append(L.ge(L.lin_add(hi_, L.lin_const(0 if it.a.endswith("RangeInclusive") else -1)), L.lin_var(v)))
+                    # base64 `decode_slice(input, output)` returns the number of bytes written: <= output.len()
+                    x_ = e
+                    hops_ = 0
+                    while x_ is not None and hops_ < 6:
+                        hops_ += 1
+                        if x_.k == "field":
+                            x_ = x_.a
+                        elif x_.k == "call" and x_.a.name in ("ok", "unwrap", "expect", "branch", "unwrap_or_default") and x_.a.args:
+                            x_ = call_arg_exprs(x_.a)[0]
+                        else:
+                            break
+                    if x_ is not None and x_.k == "call" and x_.a.path.startswith("base64::Engine::decode_slice") and len(x_.a.args) == 3:
+                        lc = L.Ctx(x_.a.fn, cm.view_info)
+                        ol = lc.len_of_operand(x_.a.args[2]) if x_.a.fn is f else None
+                        if ol is not None:
+                            out.append(L.ge(ol, L.lin_var(v)))
+                            out.append(L.ge(L.lin_var(v), L.lin_const(0)))
                     if e.k == "call" and e.a.path in ("std::cmp::min", "std::cmp::Ord::min"):
                         lc = L.Ctx(f, cm.view_info)
                         for a in call_arg_exprs(e.a):
